@@ -165,17 +165,24 @@ def r_get_trigger(ck: Checker) -> None:
     it = ck.interp(func)
     var = func.params()[1]
     rets = [r for r in returns_of(func) if isinstance(r.value, ast.Tuple)]
-    ck.need(len(rets) == 1 and len(rets[0].value.elts) == 3, "_get_trigger returns (literal, index, annotated predicate)")  # type: ignore[union-attr]
-    ret = rets[0]
-    lit, idx, ap = [unparse(e) for e in ret.value.elts]  # type: ignore[union-attr]
-    ck.guard("trigger literal is a predicate atom", func, ret, f"is_predicate({lit})", "")
-    ck.guard("at-most-one predicate is the literal's predicate", func, ret, f"{ap}.pred == Predicate({lit}.atom.symbol.name, len({lit}.atom.symbol.arguments))", "")
-    ck.guard("a trigger position was found", func, ret, f"{idx} is not None", "without a position holding the weight variable there is nothing to chain (and the old code asserted)", )
-    ck.guard("the predicate has a domain", func, ret, f"self.domain_predicates.has_domain({ap}.pred)", "create_domain / create_next_pred raise RuntimeError otherwise: optimize must leave such statements unchanged")
+    ck.need(len(rets) >= 1 and all(len(r.value.elts) == 3 for r in rets), "_get_trigger returns (literal, index, annotated predicate)")  # type: ignore[union-attr]
     flag = [n for n in find_nodes(func.node, lambda n: isinstance(n, ast.Assign)) if is_const(n.value, False) and isinstance(n.targets[0], ast.Name)]  # type: ignore[attr-defined]
     ck.need(len(flag) == 1, "a flag records a varying position that is neither `_` nor the weight variable")
     fname = unparse(flag[0].targets[0])  # type: ignore[attr-defined]
-    ck.guard("every varying position is `_` or the weight variable", func, ret, fname, "another variable at a varying position selects single atoms: the element is not 'the value of the group'")
+    for ret in rets:
+        lit, idx, ap = [unparse(e) for e in ret.value.elts]  # type: ignore[union-attr]
+        ck.guard("trigger literal is a predicate atom", func, ret, f"is_predicate({lit})", "")
+        ck.guard("at-most-one predicate is the literal's predicate", func, ret, f"{ap}.pred == Predicate({lit}.atom.symbol.name, len({lit}.atom.symbol.arguments))", "")
+        ck.guard("a trigger position was found", func, ret, f"{idx} is not None", "without a position holding the weight variable there is nothing to chain (and the old code asserted)", )
+        ck.guard("the predicate has a domain", func, ret, f"self.domain_predicates.has_domain({ap}.pred)", "create_domain / create_next_pred raise RuntimeError otherwise: optimize must leave such statements unchanged")
+        ck.guard("every varying position is `_` or the weight variable", func, ret, fname, "another variable at a varying position selects single atoms: the element is not 'the value of the group'")
+    # the position belongs to the literal it was found in: it is forgotten before the next literal is examined
+    resets = [n for n in find_nodes(func.node, lambda n: isinstance(n, (ast.Assign, ast.AnnAssign))) if unparse(getattr(n, "target", None) or n.targets[0]) == idx and n.value is not None and is_const(n.value, None)]  # type: ignore[attr-defined]
+    lit_loops = [lp for lp in find_nodes(func.node, lambda n: isinstance(n, ast.For)) if unparse(lp.target) == lit]  # type: ignore[attr-defined]
+    ck.need(len(lit_loops) == 1, "_get_trigger examines the literals of the body in a loop")
+    ok_reset = bool(resets) and all(enclosing_loop(func, n) is not None and (enclosing_loop(func, n) is lit_loops[0] or lit_loops[0] in ancestors(func, enclosing_loop(func, n))) for n in resets)
+    ck.add("the trigger position is reset for every literal", ok_reset, func, resets[0] if resets else lit_loops[0], f"`{idx} = None` inside the loop over the literals: {ok_reset}",
+           "a position found in an earlier atom would be returned together with a later atom of another at-most-one predicate (of smaller arity): IndexError / RuntimeError in the chain construction, or a chain over the wrong argument")
     # what sets the trigger index
     sets = [n for n in find_nodes(func.node, lambda n: isinstance(n, ast.Assign)) if unparse(n.targets[0]) == idx and not is_const(n.value, None)]  # type: ignore[attr-defined]
     ck.need(len(sets) == 1, "trigger index set at one site")
@@ -282,8 +289,7 @@ def _template(ck: Checker, func_name: str, which: str) -> None:
         itm = ck.interp(func, None, mark_stmts={id(stmt_): "emitted"})
         sts = itm.states(cp[0])
         okm = bool(sts) and all("emitted" in st.marks for st in sts)
-        flows = isinstance(stmt_, ast.Expr) and isinstance(stmt_.value, ast.Call) and isinstance(stmt_.value.func, ast.Attribute) and stmt_.value.func.attr in ("extend", "append")
-        ck.add(f"{which}: the {what} rules are emitted on every path that uses the chain predicate", okm and flows, func, call, f"`{short(unparse(stmt_), 90)}` passed on every path to `{short(unparse(cp[0]), 50)}`: {okm}",
+        ck.add(f"{which}: the {what} rules are emitted on every path that uses the chain predicate", okm, func, call, f"`{short(unparse(stmt_), 90)}` passed on every path to `{short(unparse(cp[0]), 50)}`: {okm}",
                "a second statement chaining the same predicate over another position (or a later call) would refer to order predicates nobody defines: its objective level costs 0")
     ck.add(f"{which}: S3 chain in maximum direction", is_const(cc[0].args[2], True) and is_const(cp[0].args[2], True), func, cc[0], f"maximum flags {unparse(cc[0].args[2])}, {unparse(cp[0].args[2])}",
            "chain(G,V) must mean 'the chosen value is >= V': weights value-predecessor then add up to the chosen value")
@@ -401,7 +407,7 @@ RULES = [
     Rule("C13.get-trigger", PG + ("C03",), r_get_trigger),
     Rule("C13.G.get-var", PG, r_get_var),
     Rule("C13.replace-optimize", PG, r_replace_optimize),
-    Rule("C13.TEMPLATE.elements", PG + ("C04", "C06"), r_template_elements),
-    Rule("C13.TEMPLATE.optimize", PG + ("C04",), r_template_optimize),
+    Rule("C13.TEMPLATE.elements", PG + ("C04", "C06"), r_template_elements, extra={"C20": ("rules are emitted on every path",)}),
+    Rule("C13.TEMPLATE.optimize", PG + ("C04",), r_template_optimize, extra={"C20": ("rules are emitted on every path",)}),
     Rule("C13.execute", P, r_execute),
 ]
